@@ -701,6 +701,8 @@ def main(tier: str, seed: int) -> int:
         samples=[{"meta": s["meta"], "events": [{k: e[k] for k in e if k != "post"} for e in s["trace"]["events"][:6]]} for s in sessions[:3]],
         exhaustive=False,
     )
+    for dname in core.WORK.glob(f"c06tmp{_RUN}-*"):
+        shutil.rmtree(dname, ignore_errors=True)
     return v.finish(min_traces={"quick": 400, "thorough": 2000}[tier])
 
 
